@@ -1,5 +1,6 @@
 import TlsProofs.OrderCheck
 import TlsProofs.OrderSafety
+import TlsProofs.OrderPost
 /-
   C06 — handshake messages are accepted only in the order the protocol allows.
 
@@ -252,5 +253,87 @@ example :
        ⟨.finished, 1, false, .whole⟩, ⟨.client_hello, 1, false, .whole⟩, ⟨.app_data, 1, false, .whole⟩]
     r.st = .done ∧ r.warns = 1 ∧ r.delivered = 1 ∧ r.accAtDone = 4 ∧
     (match handshakeStart r with | .error _ => true | .ok _ => false) = true := by decide
+
+/-! ### 5. the post-handshake phase -/
+
+/-- After `_handshakeDone`, for every sequence of ANY length of incoming pieces and local actions
+    (`request_post_handshake_auth`, `close()` with `closeSocket = False`): as long as the endpoint
+    has sent no fatal alert, what it took is a (prefix of a) sequence the post-handshake grammar
+    `postSpec` permits — TLS 1.3: KeyUpdate either way; NewSessionTicket and (with a key pair)
+    CertificateRequest to a client only; to a server only the answer to an outstanding
+    CertificateRequest, as the consecutive flight Certificate [CertificateVerify] Finished;
+    ≤ 1.2: renegotiation attempts (refused), heartbeat; after close: what may still be in flight
+    until the peer's alert. -/
+theorem post_handshake_in_grammar (c : Cfg) (ms : List Msg) (es : List Ev)
+    (h : (run c (start c) ms).st = .done)
+    (hok : (runEv c (run c (start c) ms) es).alert = none) :
+    postAllowed c (run c (start c) ms).outstanding es = true := by
+  have hinv := inv_run c ms (start c) (inv_start c)
+  generalize run c (start c) ms = r0 at *
+  have hna : r0.alert = none := by
+    cases ha : r0.alert with
+    | none => rfl
+    | some a => have := (hinv.alertDead (by rw [ha]; rfl)).1; rw [h] at this; cases this
+  have := post_run c es r0 (Or.inl (by rw [h]; rfl)) hna hok
+  unfold postAllowed
+  have habs : absP r0 = .idle r0.outstanding := by simp [absP, h]
+  rw [← habs, this]; rfl
+
+/-- …and conversely every deviation is fatal: if the events are not a permitted post-handshake
+    sequence, the endpoint has sent a fatal alert (and, by `no_data_before_completion`'s invariant,
+    is dead and closed) — whatever the key epochs, coalescing or fragmentation. -/
+theorem post_handshake_deviation_fatal (c : Cfg) (ms : List Msg) (es : List Ev)
+    (h : (run c (start c) ms).st = .done)
+    (hbad : postAllowed c (run c (start c) ms).outstanding es = false) :
+    (runEv c (run c (start c) ms) es).alert.isSome = true := by
+  cases ha : (runEv c (run c (start c) ms) es).alert with
+  | some a => rfl
+  | none =>
+    have := post_handshake_in_grammar c ms es h ha
+    rw [this] at hbad; cases hbad
+
+/-- non-vacuity: a TLS 1.3 server asks for post-handshake authentication and takes the flight;
+    the same flight without its CertificateVerify, or a KeyUpdate inside it, is fatal -/
+def tls13ServerKp : Cfg :=
+  { role := .server, ver := .tls13, kx := .ecdhe, reqCert := false, clientCert := false, tickets := false,
+    npn := false, hrr := false, resume := .none, compCert := true, hb := true, compat := true, keypair := true }
+
+example :
+    let hs : List Ev := [.msg ⟨.client_hello, 0, false, .whole⟩, .msg ⟨.ccs, 0, false, .whole⟩,
+                         .msg ⟨.finished, 1, false, .whole⟩]
+    let ok := runEv tls13ServerKp (start tls13ServerKp)
+      (hs ++ [.requestPha, .msg ⟨.compressed_certificate, 2, false, .whole⟩,
+              .msg ⟨.certificate_verify, 2, false, .whole⟩, .msg ⟨.finished, 2, false, .whole⟩,
+              .msg ⟨.app_data, 2, false, .whole⟩])
+    let skip := runEv tls13ServerKp (start tls13ServerKp)
+      (hs ++ [.requestPha, .msg ⟨.compressed_certificate, 2, false, .whole⟩, .msg ⟨.finished, 2, false, .whole⟩])
+    let ku := runEv tls13ServerKp (start tls13ServerKp)
+      (hs ++ [.requestPha, .msg ⟨.compressed_certificate, 2, false, .whole⟩, .msg ⟨.key_update, 2, false, .whole⟩])
+    ok.st = .done ∧ ok.outstanding = 0 ∧ ok.delivered = 1 ∧ ok.alert = none ∧
+    skip.alert = some .unexpected_message ∧ ku.alert = some .unexpected_message := by decide
+
+/-! ### 6. no handshake message spans a key change -/
+
+/-- For every version, position, defragmenter content and incoming piece: whenever the endpoint
+    installs new read keys (ChangeCipherSpec in ≤ 1.2; ServerHello / ClientHello / Finished /
+    KeyUpdate in TLS 1.3), nothing else is buffered — before, at most the head of the very message
+    that completes now; after, nothing — and a handshake message that triggers the change is
+    complete and ends its record.  Hence no handshake message starts under one key epoch and ends
+    under another. -/
+theorem no_message_spans_key_change (c : Cfg) (r : Run) (m : Msg) (hlive : r.st ≠ .dead)
+    (hb : (feed c r m).epoch ≠ r.epoch) :
+    (feed c r m).pending = none ∧
+    (r.pending = none ∨ (m.part = .tail ∧ m.kind.isHandshake = true ∧ r.pending = some m.kind)) ∧
+    (m.kind.isHandshake = true → m.plus = false ∧ m.part ≠ .head) :=
+  feed_key_change c r m hlive hb
+
+/-- the regression behind it (≤ 1.2, fixed in tlslite-ng 68f117a): the head of Finished before the
+    ChangeCipherSpec and the rest after it is refused when the CCS is taken; TLS 1.3 (eab5433): a
+    ServerHello whose record also carries the head of EncryptedExtensions -/
+theorem finished_must_not_span_ccs :
+    let r := run tls12Server (start tls12Server)
+      [⟨.client_hello, 0, false, .whole⟩, ⟨.client_key_exchange, 0, false, .whole⟩,
+       ⟨.finished, 0, false, .head⟩, ⟨.ccs, 0, false, .whole⟩, ⟨.finished, 1, false, .tail⟩]
+    r.st = .dead ∧ r.alert = some .unexpected_message ∧ r.epoch = 0 ∧ r.hsDone = false := by decide
 
 end Tls.Order
